@@ -35,7 +35,8 @@ def strip_comments(s):
 
 
 def func_body(src, name, fname):
-    m = re.search(r"\n" + re.escape(name) + r"\s*\(", src)
+    m = re.search(r"\n" + re.escape(name) + r"\s*\(", src) or \
+        re.search(r"\nDLLEXPORT\s+[\w \*]*?\b" + re.escape(name) + r"\s*\(", src)
     if not m:
         die("%s: function %s not found" % (fname, name))
     i = src.find("{", m.end())
@@ -273,6 +274,15 @@ if not mt:
 mt2 = re.search(r"jpeg_save_markers\s*\(\s*dinfo\s*,\s*JPEG_APP0\s*\+\s*2\s*,\s*(0[xX][0-9a-fA-F]+|\d+)\s*\)", tj)
 if not mt2:
     die("turbojpeg.c: tj3DecompressHeader no longer saves APP2 markers")
+# tj3Transform: is the instance profile (tj3SetICCProfile) written whatever the copy option is?
+tb = func_body(tj, "tj3Transform", "turbojpeg.c")
+mx = re.search(r"jcopy_markers_execute\s*\(.*?\)\s*;\s*if\s*\((.*?)\)\s*jpeg_write_icc_profile\s*\(", tb, re.S)
+if not mx:
+    die("turbojpeg.c: tj3Transform no longer calls jpeg_write_icc_profile right after jcopy_markers_execute")
+cond = " ".join(mx.group(1).split())
+tj_icc_uncond = 1 if cond == "this->iccBuf != NULL && this->iccSize != 0" else 0
+if not tj_icc_uncond and "saveMarkers" not in cond and "COPYNONE" not in cond:
+    die("turbojpeg.c: tj3Transform ICC condition not understood: " + cond)
 
 
 def zl(xs):
@@ -308,4 +318,6 @@ for i, k in enumerate(copyopts):
     P("Definition %s : Z := %d." % (k, i))
 P("Definition COPY_SAVE_LIMIT : Z := %d." % copy_limit)
 P("Definition TJ_SAVEMARKERS_MIN : Z := %s.\nDefinition TJ_SAVEMARKERS_MAX : Z := %s.\nDefinition TJ_ICC_SAVE_LIMIT : Z := %d." % (mt.group(1), mt.group(2), cint(mt2.group(1))))
+P("(* 1: tj3Transform writes the profile set by tj3SetICCProfile after the copied markers whatever the copy option is *)")
+P("Definition TJ_TRANSFORM_ICC_UNCONDITIONAL : Z := %d." % tj_icc_uncond)
 print("\n".join(out))
